@@ -1004,6 +1004,15 @@ func racePass(t *testing.T, job *simh.Job, out *simh.Out) {
 		w, fp, mp, mapSeed := genWorkload(seed, job.Mix)
 		// the free-running pass gains nothing from simulated slowness
 		w.SnapYields, w.SrcYields, w.TgtYields = 0, 0, 0
+		if p := job.Extra["stream"]; p != "" {
+			so, err := simh.OpenOut(p)
+			if err != nil {
+				simh.Fatalf("%v", err)
+			}
+			so.Line(map[string]interface{}{"t": "replay", "replay": replayFile{Property: job.Property, Engine: "pipesim-free", Mix: job.Mix, Seed: seed, Workload: w, Faults: fp,
+				MapPolicy: mp.String(), MapSeed: mapSeed, ShrinkArrays: []string{"workload.features", "workload.targets"}}})
+			so.Close()
+		}
 		v := runFree(&w)
 		sum.Runs++
 		sum.SeedNext = seed + 1
